@@ -43,6 +43,9 @@ def run(ctx):
     snapshot(ctx, d3)
     views(ctx, d4)
     alignment(ctx, d5)
+    d6 = ctx.rule('D6', 'the per-(phases, chemicals) index cache is refreshed after its inputs change', floor=3)
+    from ..generic import index_cache_follows_inputs
+    index_cache_follows_inputs(prog, d6)
 
 
 def _views_refreshed(x):
